@@ -4,6 +4,7 @@ C09 — witnesses: clauses of the property that are false of the current code, o
 and the reason why `heuristic_transparent` needs a hypothesis on the text.
 -/
 import WpModel.Model.LineBreak
+import WpModel.Model.InlineRun
 
 namespace Wp.Witness.C09
 open Wp Wp.Py Wp.Pango Wp.LB
@@ -51,6 +52,47 @@ theorem heuristic_not_transparent_with_space_before_newline :
     (splitFirstLineH false { ws := .normal, wb := .normal, ow := .breakWord, fs := 30 }
         "aaa \n aaaa".toList (.fin (195 / 2)) true false).toOption
       = some { length := 3, resume := some 4, width := 90, text := "aaa".toList } := by
+  decide +kernel
+
+/-! ### nested inline boxes (`Model/InlineRun`) -/
+
+def inlinePara (width : Rat) (kids : List IR.Node) : IR.Para :=
+  { st := { ws := .normal, wb := .normal, ow := .normal, fs := 10 }, kids := kids, lineHeight := 10,
+    cbx := 0, width := width, indent := 0,
+    align := { alignAll := .start, alignLast := none, ws := .normal, rtl := false }, y := 0 }
+
+def lineWidths (p : IR.Para) : Option (List Rat) := (IR.paragraph p).toOption.map (·.map (·.w))
+
+/-- finding `inline-start-spacing-overflow`: `<span style="padding-left:30px">aaa bbb ccc</span>` in a
+90px block: the first line (`aaa bbb`, breakable) is 100px wide. -/
+theorem inline_start_spacing_overflows :
+    lineWidths (inlinePara 90 [.box 30 0 true [.text "aaa bbb ccc".toList]]) = some [100, 30] := by
+  decide +kernel
+
+/-- finding `inline-end-spacing-overflow`: `<span style="padding-right:30px">aa <b>bb </b>cc</span>` in
+an 80px block: everything stays on one line of 110px, the opportunity before `cc` is not used. -/
+theorem inline_end_spacing_overflows :
+    lineWidths (inlinePara 80 [.box 0 30 true
+      [.text "aa ".toList, .box 0 0 false [.text "bb ".toList], .text "cc".toList]]) = some [110] := by
+  decide +kernel
+
+/-- finding `inline-end-spacing-reserved-early`: `<span style="padding-right:30px">xxxx x x</span>` in an
+85px block: the first line is `xxxx` (40px) although `xxxx x` (60px) fits — the span continues on the
+next line, so no end spacing has to be kept on the first. -/
+theorem inline_end_spacing_reserved_early :
+    lineWidths (inlinePara 85 [.box 0 30 true [.text "xxxx x x".toList]]) = some [40, 60] := by
+  decide +kernel
+
+/-- finding `inline-box-width-stale`: `<span>aaa bbb<span style="padding-left:10px"> ccc</span></span>` in
+a 70px block: on the first line the outer span is 70px wide and its only child `aaa` is 30px wide —
+the extents of the inline boxes do not add up. -/
+theorem inline_box_width_stale :
+    (IR.paragraph (inlinePara 70 [.box 0 0 false [.text "aaa bbb".toList,
+        .box 10 0 true [.text " ccc".toList]]])).toOption.map
+      (fun ls => ls.head?.map (fun l => l.kids.map (fun f => (f.marginWidth,
+        match f with
+        | .box _ _ _ _ _ kids => kids.map IR.Frag.marginWidth
+        | _ => [])))) = some (some [(70, [30])]) := by
   decide +kernel
 
 end Wp.Witness.C09
